@@ -275,6 +275,17 @@ def token_kind_templates(chk, gen, lm, TF, tier):
         "CHARACTER": ["a", '"', "\n", "\\", "λ", "'", "`"],
         "STRING": [],  # handled by the transducer
     }
+    # variable names as the current lexer can produce them, in either of its
+    # modes (one representative per character class beyond the identifier
+    # characters; a few adversarial ones if the language is unrestricted)
+    from ..lexprobe import LexProbe, ANYSET
+    lp = LexProbe(gen.repo, gen.it)
+    ident = set("abcdefghijklmnopqrstuvwxyzABCDEFGHIJKLMNOPQRSTUVWXYZ_")
+    for k in ("VARIABLE_GET", "VARIABLE_SET"):
+        alpha = lp.alphabet(k)
+        extra = ["+", "(", ",", '"', "λ"] if alpha is ANYSET else sorted(
+            alpha - ident)[:12]
+        samples[k] = samples[k] + extra + ["x" + e for e in extra[:4]]
     for k in kinds:
         if k not in samples:
             raise AnalysisError(
